@@ -239,6 +239,9 @@ def c03(run, replay=None):
     for nodes, t in base:
         for chk in ("global", "task"):
             cases.append((nodes, [t], chk))
+    # --check on the command line wins over a task's own `check_mode: false`
+    for nodes, t in base[::7]:
+        cases.append((nodes, [t], "global_kwfalse"))
     if replay:
         rp = json.load(open(replay))["replay"]
         cases = [([{k: (bytes.fromhex(v) if k == "c" else v) for k, v in n.items()} for n in rp["world"]], [rp["task"]], rp["check"])] if "world" in rp else cases[:50]
